@@ -119,7 +119,7 @@ def main(argv=None):
         # shares are cut by the default divmod helper: exact for non-integral chips, odd chips only for integers (C19 contract)
         from pyvc.shapes import Shape as _Shape
         for ch in ('int', 'real'):
-            tasks.append({'module': 'props.c02', 'fn': 'shared_c19_task', 'kind': 'divmod', 'shape': _Shape(n=2, S=1, T=1, B=1, H=1).as_dict(),
+            tasks.append({'module': 'props.c02', 'fn': 'shared_c19_task', 'isolate': True, 'kind': 'divmod', 'shape': _Shape(n=2, S=1, T=1, B=1, H=1).as_dict(),
                           'chips': ch, 'timeout_ms': 60000, 'name': f'divmod/{ch}'})
     chk.run_tasks(tasks)
     chk.assumptions += [
